@@ -79,7 +79,10 @@ DriftStore(e, kind) ==
        \/ \E i \in DOMAIN o.values :
             o.values[i].kind = "ok" /\
             SaRange(o.values[i].vals) # AlgoValuesW(kind, WorldOf(e), ReqOf(e), o.values[i].n, OptOf(e))
-Drift(e) == \E i \in 1..NK : DriftStore(e, Kinds[i])
+(* worlds with really downsampled blocks: the downsampler re-cuts chunks (one aggregate chunk may span
+   several slots), which the slot model of the algorithm level does not describe: no prediction *)
+HasDownsampled(e) == \E i \in DOMAIN e.in.world.blocks : e.in.world.blocks[i].res > 0
+Drift(e) == ~HasDownsampled(e) /\ \E i \in 1..NK : DriftStore(e, Kinds[i])
 
 VARIABLE l
 TraceInit == l = 1
